@@ -6,8 +6,8 @@ import RV.Base.Proto
     row c1 c2 …           -> ok            (one pattern solution; cell = term token or `-`)
     q <query tokens>      -> v1,v2#row;row;…   (evalQuery on the stored solutions; row = cells joined by `,`)
   term tokens:  I.<dt>.<int>  D.<m>.<s>  F.<dt>.<m>.<s>  B.0|1  S.<cps>.<langcps>  U.<cps>  N.<cps>   (cps = code points joined by `_`)
-  query tokens: mod(N|D|R) offset(n|-) limit(n|-) nuser  (-| k (gv i | ga i E)…)  nproj (pv v | pe v E)…  (0 | 1 E)  nord ((A|D) E)…
-  E: v i | c term | + E E | - E E | cmp (lt|gt|eq|ne|le|ge) E E | agg kind d(0|1) sep(-|s<cps>) (* | E)
+  query tokens: mod(N|D|R) offset(n|-) limit(n|-) nuser  (-| k (gv i | ga i E | ge E)…)  nproj (pv v | pe v E)…  (0 | 1 E)  nord ((A|D) E)…
+  E: v i | c term | + E E | - E E | cmp (lt|gt|eq|ne|le|ge) E E | and E E | agg kind d(0|1) sep(-|s<cps>) (* | E)
   answer cells: Q.<dt>.<num>.<den>.<scale>  B.0|1  S.<cps>.<langcps>  U.<cps>  N.<cps>  -
 -/
 open RV RV.C08 RV.Proto
@@ -80,6 +80,10 @@ def parseE : Nat → List String → Option (Expr × List String)
       let (a, r1) ← parseE f rest
       let (b, r2) ← parseE f r1
       pure (.sub a b, r2)
+    | "and" :: rest => do
+      let (a, r1) ← parseE f rest
+      let (b, r2) ← parseE f r1
+      pure (.and a b, r2)
     | "cmp" :: op :: rest => do
       let op ← cmpOp? op
       let (a, r1) ← parseE f rest
@@ -107,17 +111,21 @@ def takeNats : Nat → List String → Option (List Nat × List String)
   | _, [] => none
 
 /-- GROUP BY conditions: `gv i` (variable) or `ga i E` (`(E AS ?i)`) -/
-def parseGroup (fuel : Nat) : Nat → List String → Option ((List Nat × List (Nat × Expr)) × List String)
+def parseGroup (fuel : Nat) : Nat → List String → Option ((List Expr × List (Nat × Expr)) × List String)
   | 0, ts => some (([], []), ts)
   | n + 1, "gv" :: v :: ts => do
     let v ← v.toNat?
     let ((ks, gas), r) ← parseGroup fuel n ts
-    pure ((v :: ks, gas), r)
+    pure ((.var v :: ks, gas), r)
+  | n + 1, "ge" :: ts => do
+    let (e, r1) ← parseE fuel ts
+    let ((ks, gas), r) ← parseGroup fuel n r1
+    pure ((e :: ks, gas), r)
   | n + 1, "ga" :: v :: ts => do
     let v ← v.toNat?
     let (e, r1) ← parseE fuel ts
     let ((ks, gas), r) ← parseGroup fuel n r1
-    pure ((v :: ks, (v, e) :: gas), r)
+    pure ((.var v :: ks, (v, e) :: gas), r)
   | _, _ => none
 
 def parseProj (fuel : Nat) : Nat → List String → Option (List Proj × List String)
